@@ -1,13 +1,24 @@
-//! Build script of the harness.
-//!
-//! Feature `pool` (C29): copies `$VERIF_REPO/src/thread.rs` (default /repo) into OUT_DIR with
-//! ONLY its `use std::sync…`, `use std::thread…` and `use std::time…` imports rewritten to the
-//! shim in `crate::pool_shim` (a Mutex/Condvar/thread/Instant implementation on top of the
-//! `shuttle` controlled scheduler), inner doc comments turned into ordinary comments (they are
-//! not allowed inside `include!`), and a probe sub-module appended that lets the harness read the
-//! private records (`GroupRecords`, `PoolRecords`) at lock releases.  Every other line is the
-//! repository's code, unmodified.
+use std::fs;
 use std::io::Write;
+use std::path::PathBuf;
+
+// Copies the daemon's zone-loading modules of the repository under test into
+// `src/gen_daemon/` so that `main.rs` can include them with literal `#[path]`s (group `reload`,
+// C31). The repository path is the `quandary` path dependency of the generated Cargo.toml
+// (bin/check writes it from Cargo.toml.in, honouring VERIF_REPO).
+
+const FILES: [&str; 4] = ["args.rs", "config.rs", "run.rs", "zones.rs"];
+
+
+// Build script of the harness.
+//
+// Feature `pool` (C29): copies `src/thread.rs` of the repository under test into OUT_DIR with
+// ONLY its `use std::sync…`, `use std::thread…` and `use std::time…` imports rewritten to the
+// shim in `crate::pool_shim` (a Mutex/Condvar/thread/Instant implementation on top of the
+// `shuttle` controlled scheduler), inner doc comments turned into ordinary comments (they are
+// not allowed inside `include!`), and a probe sub-module appended that lets the harness read the
+// private records (`GroupRecords`, `PoolRecords`) at lock releases.  Every other line is the
+// repository's code, unmodified.
 
 const PROBE: &str = r#"
 
@@ -31,13 +42,43 @@ pub mod verif_probe {
 }
 "#;
 
-fn main() {
-    println!("cargo:rerun-if-env-changed=VERIF_REPO");
+/// the repository under test = the `quandary` path dependency of the generated Cargo.toml
+fn repo_path() -> String {
+    let dir = PathBuf::from(std::env::var("CARGO_MANIFEST_DIR").unwrap());
+    let manifest = fs::read_to_string(dir.join("Cargo.toml")).expect("Cargo.toml");
+    manifest
+        .lines()
+        .find(|l| l.trim_start().starts_with("quandary"))
+        .and_then(|l| l.split("path = \"").nth(1))
+        .and_then(|r| r.split('"').next())
+        .expect("quandary path dependency in Cargo.toml")
+        .to_string()
+}
+
+fn copy_daemon() {
+    let dir = PathBuf::from(std::env::var("CARGO_MANIFEST_DIR").unwrap());
+    let repo = repo_path();
+    let src = PathBuf::from(&repo).join("src/bin/quandaryd");
+    let dst = dir.join("src/gen_daemon");
+    fs::create_dir_all(&dst).unwrap();
+    for f in FILES {
+        let text = fs::read_to_string(src.join(f))
+            .unwrap_or_else(|e| panic!("cannot read {}: {e}", src.join(f).display()));
+        let out = dst.join(f);
+        if fs::read_to_string(&out).map_or(true, |old| old != text) {
+            fs::write(&out, text).unwrap();
+        }
+        println!("cargo:rerun-if-changed={}", src.join(f).display());
+    }
+    println!("cargo:rerun-if-changed=Cargo.toml");
     println!("cargo:rerun-if-changed=build.rs");
+}
+
+fn copy_thread() {
     if std::env::var("CARGO_FEATURE_POOL").is_err() {
         return;
     }
-    let repo = std::env::var("VERIF_REPO").unwrap_or_else(|_| "/repo".to_string());
+    let repo = repo_path();
     let path = format!("{repo}/src/thread.rs");
     println!("cargo:rerun-if-changed={path}");
     let src = std::fs::read_to_string(&path).unwrap_or_else(|e| panic!("cannot read {path}: {e}"));
@@ -79,4 +120,9 @@ fn main() {
     let dest = std::path::Path::new(&std::env::var("OUT_DIR").unwrap()).join("thread_under_test.rs");
     let mut f = std::fs::File::create(&dest).unwrap();
     f.write_all(out.as_bytes()).unwrap();
+}
+
+fn main() {
+    copy_daemon();
+    copy_thread();
 }
